@@ -3,7 +3,7 @@ from __future__ import annotations
 
 import importlib
 
-MODULES = ["repartition", "partitions", "layers", "decisions", "divisions", "parquet_stats", "drivers", "filters", "serialize", "caches", "projection", "rules", "deps", "prune_rules"]
+MODULES = ["repartition", "partitions", "layers", "decisions", "divisions", "parquet_stats", "drivers", "filters", "serialize", "caches", "projection", "rules", "deps", "prune_rules", "boundaries"]
 
 
 def all_specs():
